@@ -123,8 +123,8 @@ type bias struct {
 	pRange               int
 	pCond                int
 	pCancel              int
-	pOddURL int
-	pStall  int
+	pOddURL              int
+	pStall               int
 	pPoison              int
 	pPartial             int
 	pRespell             int
@@ -322,8 +322,28 @@ func (g *gen) plan(b *bias, resIdx, nRes int, vary string) RespPlan {
 	if g.chance(30) {
 		p.Extra = append(p.Extra, [2]string{"Content-Type", pick(g, "text/plain", "application/octet-stream", "text/html; charset=utf-8")})
 	}
+	if g.chance(6) {
+		// an origin that sits behind a cache of the same kind: its replies carry that cache's status fields
+		p.Extra = append(p.Extra, [2]string{"X-From-Cache", "1"})
+		if g.chance(50) {
+			p.Extra = append(p.Extra, [2]string{"X-Httpcache-Status", pick(g, "HIT", "STALE", "MISS")})
+		}
+	}
 	if g.chance(max(b.pMultiField, 15)) {
 		p.Extra = append(p.Extra, [2]string{"X-Multi", "a$SID"}, [2]string{"X-Multi", "b, c"}, [2]string{"Link", `</x>; rel="next", </y>; rel="prev"`})
+	}
+	if p.CC != "" && g.chance(4) {
+		// a directive given twice with different arguments
+		for _, d := range splitList(p.CC) {
+			if strings.HasPrefix(d, "max-age=") && !strings.Contains(p.CC, "s-maxage") {
+				p.CC += ", max-age=" + pick(g, "86400", "3600", "0")
+				break
+			}
+			if d == "no-cache" {
+				p.CC += `, no-cache="Set-Cookie"`
+				break
+			}
+		}
 	}
 	if p.CC != "" && g.chance(12) {
 		p.CCStyle = pick(g, "lines", "case")
@@ -356,7 +376,7 @@ func (g *gen) resource(b *bias, i, n int) Resource {
 	}
 	if g.chance(10) {
 		// queries that net/url accepts although they are not well-formed percent-encoding
-		r.Query = pick(g, "d=50%", "q=%zz", "q=%4", "rate=5%&x=1", "m=100%25%", "%", "a=%%41")
+		r.Query = pick(g, "d=50%", "q=%zz", "q=%4", "rate=5%&x=1", "m=100%25%", "%", "a=%%41", "q={FF}", "n=caf{E9}")
 	}
 	if g.chance(8) {
 		r.Path, r.Query = "/", fmt.Sprintf("r%d=1", i)
